@@ -367,7 +367,9 @@ fn run_adf(id: &str, lines: &[String], out: &mut String) {
     }
 }
 
-fn run_iter(id: &str, kind: &str, lines: &[String], out: &mut String) {
+fn run_iter(id: &str, kind: &str, rest: &[String], lines: &[String], out: &mut String) {
+    // an optional number after the kind: only that many elements are taken (vectors with 64 and more undecided positions)
+    let limit: usize = rest.first().and_then(|x| x.parse().ok()).unwrap_or(usize::MAX);
     use adf_bdd::datatypes::adf::{ThreeValuedInterpretationsIterator, TwoValuedInterpretationsIterator};
     for line in lines {
         let w: Vec<&str> = line.split_whitespace().collect();
@@ -376,9 +378,9 @@ fn run_iter(id: &str, kind: &str, lines: &[String], out: &mut String) {
         }
         let v: Vec<Term> = w[1..].iter().map(|s| Term(s.parse().unwrap())).collect();
         let res: Vec<Vec<Term>> = if kind == "ITER2" {
-            TwoValuedInterpretationsIterator::new(&v).collect()
+            TwoValuedInterpretationsIterator::new(&v).take(limit).collect()
         } else {
-            ThreeValuedInterpretationsIterator::new(&v).collect()
+            ThreeValuedInterpretationsIterator::new(&v).take(limit).collect()
         };
         writeln!(
             out,
@@ -455,7 +457,7 @@ fn main() {
                         let r = catch_unwind(AssertUnwindSafe(|| match kind.as_str() {
                             "PROG" => run_prog(&id2, &lines, &mut out),
                             "ADF" => run_adf(&id2, &lines, &mut out),
-                            "ITER2" | "ITER3" => run_iter(&id2, &kind, &lines, &mut out),
+                            "ITER2" | "ITER3" => run_iter(&id2, &kind, &rest, &lines, &mut out),
                             "PARSE" => run_parse(&id2, &lines, &mut out),
                             _ => extra::run_case(&id2, &kind, &rest, &lines, &mut out),
                         }));
@@ -472,7 +474,10 @@ fn main() {
                     continue;
                 }
                 match rx.recv_timeout(std::time::Duration::from_millis(limit)) {
-                    Ok(out) => so.write_all(out.as_bytes()).unwrap(),
+                    Ok(out) => {
+                        so.write_all(out.as_bytes()).unwrap();
+                        so.flush().unwrap(); // a later case may kill the process (stack overflow): keep what is answered
+                    }
                     Err(_) => {
                         timeouts += 1;
                         so.write_all(format!("{} TIMEOUT\n", id).as_bytes()).unwrap()
